@@ -671,6 +671,17 @@ class JinjaAnalyzer:
                     )
                 str_buff = ""
                 str_parts = []
+        if str_buff:
+            # Jinja's lexer accepts an unterminated comment opener ("{#") at the
+            # very end of the file and renders it as nothing. Keep it as a
+            # comment slice so that the slices still cover the whole source.
+            self.raw_sliced.append(
+                RawFileSlice(str_buff, "comment", self.idx_raw, block_idx)
+            )
+            self.raw_slice_info[self.raw_sliced[-1]] = self.make_raw_slice_info(
+                None, None
+            )
+            self.idx_raw += len(str_buff)
         return self._get_jinja_tracer(
             self.raw_str,
             self.raw_sliced,
